@@ -12,19 +12,22 @@ const vm = require('vm')
 const Module = require('module')
 const readline = require('readline')
 
+let faultSet = false   // fault injection: every write to an LRU store throws while this is set
 class LRU {
   constructor (opts) { this.max = (opts && opts.max) || 1000; this.m = new Map() }
   get (k) { if (!this.m.has(k)) return undefined; const v = this.m.get(k); this.m.delete(k); this.m.set(k, v); return v }
-  set (k, v) { if (this.m.has(k)) this.m.delete(k); this.m.set(k, v); if (this.m.size > this.max) this.m.delete(this.m.keys().next().value); return this }
+  set (k, v) { if (faultSet) throw new Error('HARNESS: the store refuses the write'); if (this.m.has(k)) this.m.delete(k); this.m.set(k, v); if (this.m.size > this.max) this.m.delete(this.m.keys().next().value); return this }
   has (k) { return this.m.has(k) }
   delete (k) { return this.m.delete(k) }
 }
 
 let currentTable = {}
 let lastNativeConfig
+let lastUsedNativeConfig   // configuration of the native instance that served the last rewrite
 class FakeNative {
-  constructor (config) { this.config = config; lastNativeConfig = JSON.stringify(config) }
+  constructor (config) { this.config = config; this.cfgText = JSON.stringify(config); lastNativeConfig = this.cfgText }
   rewrite (code, file) {
+    lastUsedNativeConfig = this.cfgText
     const key = code + '\u0000' + file
     // bulk files (op "bulk") all carry the text of a known version: the answer for /one.js serves
     const r = currentTable[key] || (file.startsWith('/w/bulk/') ? currentTable[code + '\u0000/one.js'] : undefined)
@@ -84,14 +87,23 @@ function runJob (job) {
   // another instance with other options comes first: nothing of it may reach the instance under test
   const decoy = new pkg.Rewriter(Object.assign({}, job.config, { comments: !job.config.comments, telemetryVerbosity: 'OFF', literals: false, localVarPrefix: 'zz', chainSourceMap: false }))
   void decoy
+  // ... and instances that differ from it in one place only: the CONTENT of the method list (same length), and
+  // each option on its own
+  const renamed = (job.config.csiMethods || []).map((m, i) => Object.assign({}, m, i === 0 ? { src: m.src + 'Q', dst: (m.dst || m.src) + 'Q' } : { dst: (m.dst || m.src) + 'Z' }))
+  const decoys = [new pkg.Rewriter(Object.assign({}, job.config, { csiMethods: renamed })),
+    new pkg.NonCacheRewriter(Object.assign({}, job.config, { csiMethods: renamed.slice().reverse() })),
+    new pkg.Rewriter(Object.assign({}, job.config, { localVarPrefix: 'zz' })),
+    new pkg.Rewriter(Object.assign({}, job.config, { telemetryVerbosity: job.config.telemetryVerbosity === 'OFF' ? 'DEBUG' : 'OFF' }))]
+  void decoys
   const rewriter = new pkg.Rewriter(job.config)
   events.push({ op: 'new', file: '', version: '', threw: false, cfg_same: lastNativeConfig === cfgFresh, cfg_got: String(lastNativeConfig).slice(0, 300) })
   const inUse = {}   // file -> text returned by the last successful rewrite
   for (const step of job.steps) {
     const ev = { op: step.op, file: step.file, version: step.version || '', threw: false }
     try {
-      if (step.op === 'rewrite') {
+      if (step.op === 'rewrite' || step.op === 'rewrite_fault') {
         const text = job.texts[step.version]
+        faultSet = step.op === 'rewrite_fault'
         try {
           const res = rewriter.rewrite(text, step.file)
           ev.status = String(res && res.metrics && res.metrics.status)
@@ -108,11 +120,15 @@ function runJob (job) {
           if ((natStatus === 'notmodified' ? text : nat.content) !== res.content) diffs.push('content')
           if (JSON.stringify(nat.metrics) !== JSON.stringify(res.metrics)) diffs.push('metrics')
           if (JSON.stringify(nat.literals) !== JSON.stringify(res.literalsResult)) diffs.push('literals')
+          // the native rewriter that served the call was built from THIS instance's configuration
+          if (lastUsedNativeConfig !== cfgFresh) diffs.push('native rewriter of another configuration')
           ev.fresh_same = diffs.length === 0
           ev.fresh_diff = diffs.join(',')
         } catch (e) {
           ev.rewrite_error = String(e && e.message)
           ev.status = 'error'
+        } finally {
+          faultSet = false
         }
       } else if (step.op === 'throw') {
         // run the text in use under the package's prepareStackTrace, both paths
